@@ -414,10 +414,13 @@ class OfxgetWorld:
                     self.violate("C18", "L2-persist", why if opt not in LISTS else "accounts-" + why,
                                  f"run{run.n}: --write saved effective {opt}={E[opt]!r}, but the next run without "
                                  f"command-line options yields {obs[opt]!r}", option=opt)
-                    E = dict(E)
-                    E[opt] = obs[opt]           # resync the model: report each stale value once
-                    if null(obs[opt]) and not isinstance(obs[opt], bool):
-                        self.user_model.pop(opt, None)
+                    if self.focus == "C18":
+                        E = dict(E)
+                        E[opt] = obs[opt]       # resync the model: report each stale value once
+                        if null(obs[opt]) and not isinstance(obs[opt], bool):
+                            self.user_model.pop(opt, None)
+                    # (under the C19 focus the model keeps what *should* have been saved, so that a later plain
+                    #  run is judged against the accounts the server listed as ACTIVE, not against the stale file)
             # the model of the user section: what it must now yield
             for opt in PERSISTABLE:
                 if opt in E and not (opt == "clientuid" and null(E[opt])):
@@ -825,6 +828,8 @@ def drive(world, tier):
         dryrun = ch.flag("cli.dryrun", 0.25)
         all_ = cmd in ("stmt", "stmtend") and ch.flag("cli.all", 0.12 if focus == "C18" else 0.4)
         if all_:
+            if focus == "C19" and ch.flag("cli.all.write", 0.4):
+                write = True             # the discovered accounts get saved; later plain runs must use exactly those
             for opt in LISTS + ["bankid", "brokerid"]:
                 cli.pop(opt, None)
             if ch.flag("cli.all.nodry", 0.9):
